@@ -143,7 +143,21 @@ class Design:
       s = self.sigs[g]
       if s.comp == comp: out.append((g, lo, w))
       elif comp == '' and s.comp in self.comps['']['children'] and s.kind == 'out': out.append((g, lo, w))
-    return out
+    # coalesce adjacent available pieces of one signal (inside one leaf field) so that a read may span several
+    # separately written slices, or strictly contain one of them
+    merged = []
+    bysig = {}
+    for (g, lo, w) in out: bysig.setdefault(g, []).append((lo, lo + w))
+    for g, ivs in bysig.items():
+      for (l, h) in self.leaf_bounds(self.sigs[g]):
+        cur = None
+        for (a, b) in sorted((max(a, l), min(b, h)) for (a, b) in ivs if max(a, l) < min(b, h)):
+          if cur is not None and a <= cur[1]: cur = (cur[0], max(cur[1], b))
+          else:
+            if cur is not None: merged.append((g, cur[0], cur[1] - cur[0]))
+            cur = (a, b)
+        if cur is not None: merged.append((g, cur[0], cur[1] - cur[0]))
+    return out + [m for m in merged if m not in out]
 
   # ------------------------------------------------------------------ rendering: model
   def model_blocks(self):
@@ -262,10 +276,17 @@ def generate(rng, max_blocks=8, with_children=True, with_regs=True, wide=False, 
     nest = StructT(f'SN{d.uid}', [('a', rng.choice([2, 4])), ('inner', inner), ('z', rng.choice([1, 4, 8]))])
     stypes = [flat, nest] if rng.random() < 0.6 else [rng.choice([flat, nest])]
   ST = lambda: (rng.choice(stypes) if stypes and rng.random() < 0.4 else None)
+  # names with prefix relations on purpose (w1 / w10 / w1x, out / out_q): code that compares reprs by prefix must not confuse them
+  def names(base, k):
+    pool = [f'{base}{i}' for i in range(k)]
+    if rng.random() < 0.5:
+      alt = [f'{base}1', f'{base}10', f'{base}1x', f'{base}x', f'{base}_q', f'{base}11']
+      rng.shuffle(alt); pool = alt[:k]
+    return pool
   n_in = rng.randint(1, 3)
-  for i in range(n_in): d.new_sig('', f'in{i}', W(), 'in', ST())
-  for i in range(rng.randint(1, 3)): d.new_sig('', f'out{i}', W(), 'out', ST())
-  for i in range(rng.randint(1, 4)): d.new_sig('', f'w{i}', W(), 'wire', ST())
+  for nm in names('in', n_in): d.new_sig('', nm, W(), 'in', ST())
+  for nm in names('out', rng.randint(1, 3)): d.new_sig('', nm, W(), 'out', ST())
+  for nm in names('w', rng.randint(1, 4)): d.new_sig('', nm, W(), 'wire', ST())
   children = []
   if with_children and rng.random() < 0.6:
     for c in range(rng.randint(1, 2)):
@@ -887,3 +908,57 @@ def replay_source(ck, case):
   vals = list(traces.values())
   if any(v != vals[0] for v in vals): print('pass groups disagree'); bad = 1
   return bad
+
+def generate_slices(rng):
+  """directed family for overlap shapes: one or two signals cut into 3-5 pieces written by different blocks / nets,
+  read back through random sub-ranges (strictly containing a piece, overlapping either end, sharing a bound, inside a
+  piece, exact), plus readers of the whole signal"""
+  d = Design(rng, next(_uid))
+  d.new_sig('', 'reset', 1, 'in')
+  ins = [d.new_sig('', f'in{i}', rng.choice([8, 12, 16]), 'in') for i in range(2)]
+  for s in ins: mark_available(d, s)
+  targets = [d.new_sig('', nm, rng.choice([8, 10, 12, 16]), rng.choice(['wire', 'out'])) for nm in rng.sample(['w', 'w1', 'w10', 'wx'], rng.randint(1, 2))]
+  outs = [d.new_sig('', f'out{i}', 16, 'out') for i in range(rng.randint(2, 4))]
+  for t in targets:
+    k = rng.randint(3, 5)
+    cuts = sorted(rng.sample(range(1, t.width), k - 1))
+    bounds = [0] + cuts + [t.width]
+    pieces = [(bounds[i], bounds[i + 1]) for i in range(k)]
+    rng.shuffle(pieces)
+    for (lo, hi) in pieces:
+      w = hi - lo
+      readable = d.readable_from('')
+      src = [r for r in readable if r[0] in (ins[0].idx, ins[1].idx)]
+      if rng.random() < 0.3:
+        g, l0, w0 = rng.choice([r for r in src if r[2] >= w])
+        add_net(d, (t.idx, lo, w), (g, l0 + rng.randint(0, w0 - w), w), style=1)
+      else:
+        bid = d.new_id()
+        e = d.gen_expr(w, src, rng.randint(0, 2))
+        styles = {}
+        if rng.random() < 0.4:
+          e = ('m', d.gen_expr(1, src, 1), e, d.gen_expr(w, src, 1)); styles[0] = 'ifelse'
+        d.blocks.append({'id': bid, 'name': f'blk_{bid}', 'comp': '', 'kind': 'comb', 'asgs': [((t.idx, lo, w), e)], 'styles': styles})
+        d.driven.append((t.idx, lo, w)); d.avail.append((t.idx, lo, w))
+  # readers: every out gets slices read from random sub-ranges of the targets
+  for o in outs:
+    pos = 0
+    asgs = []
+    while pos < o.width:
+      t = rng.choice(targets)
+      w = min(rng.randint(1, t.width), o.width - pos)
+      lo = rng.randint(0, t.width - w)
+      asgs.append(((o.idx, pos, w), ('r', t.idx, lo, w)))
+      pos += w
+    # one block per piece or one block for all
+    if rng.random() < 0.5:
+      bid = d.new_id()
+      d.blocks.append({'id': bid, 'name': f'blk_{bid}', 'comp': '', 'kind': 'comb', 'asgs': asgs, 'styles': {}})
+    else:
+      for a in asgs:
+        bid = d.new_id()
+        e = a[1]
+        if rng.random() < 0.3: e = ('n', a[0][2], e)
+        d.blocks.append({'id': bid, 'name': f'blk_{bid}', 'comp': '', 'kind': 'comb', 'asgs': [(a[0], e)], 'styles': {}})
+    for a in asgs: d.driven.append(a[0]); d.avail.append(a[0])
+  return d
